@@ -244,7 +244,7 @@ type c02item struct {
 
 func init() {
 	registry["C02"] = func(tier string) *mc.Spec {
-		targets := []string{"b", "<abs>/b", "../b", "a/c", ".", "..", "l2", "dangling", "/proc/self/cwd", "x", "<up>proc/self/cwd", "<up>proc/thread-self/cwd/a"}
+		targets := []string{"b", "<abs>/b", "../b", "a/c", ".", "..", "l2", "dangling", "/proc/self/cwd", "x", "<up>proc/self/cwd", "<up>proc/thread-self/cwd/a", "<chain40>"}
 		comps := []string{"a", "b", "c", "x", "l", ".", ".."}
 		maxComps := 2
 		if tier == "thorough" {
@@ -252,7 +252,7 @@ func init() {
 		}
 		spec := &mc.Spec{
 			Level: "exploration",
-			Rule: "one forest per execution (dirs a, b, a/c; files a/x, b/x, x; zero or one symlink at l or a/l over 12 target kinds (relative, absolute, dangling, through /proc/self both absolute and climbing there relatively), thorough: also both with a second link l2); in it every pathname of ≤ maxComps components over {a,b,c,x,l,.,..} × {relative, absolute} × {plain, trailing slash, doubled slash} " +
+			Rule: "one forest per execution (dirs a, b, a/c; files a/x, b/x, x; zero or one symlink at l or a/l over 13 target kinds (relative, absolute, dangling, through /proc/self both absolute and climbing there relatively, the head of a chain of 40 links — the most the kernel follows), thorough: also both with a second link l2); in it every pathname of ≤ maxComps components over {a,b,c,x,l,.,..} × {relative, absolute} × {plain, trailing slash, doubled slash} " +
 				"plus /proc/self and /proc/thread-self aliases × cwd ∈ {root, a} × dirfd encoding ∈ {AT_FDCWD sign-extended, AT_FDCWD zero-extended, directory fd, directory fd with garbage in the upper half, closed fd, a directory whose name ends in ' (deleted)' as cwd and as dirfd} × every traced path syscall/flag word of the tier; for five of the names also × placement of the string in the tracee {ordinary, ending at an unmapped page, write-only page, execute-only page}, " +
 				"issued by a real tracee under runner/ptrace with a recording soft-ban policy. Oracle: the kernel's own resolution of the same (dirfd, pathname) in the harness (O_PATH[|O_NOFOLLOW] + readlink of /proc/self/fd), access class from the call and flags. " +
 				"non-trivial: the pathname is not already canonical; distinct = (forest, call, dirfd encoding, pathname, answer)",
@@ -273,6 +273,15 @@ func init() {
 				t := targets[x.Choose(len(targets), "target")]
 				links[where] = t
 				x.Note("target", t)
+				if t == "<chain40>" {
+					// the longest chain the kernel follows: the link and 39 more next to it, the last one points at b
+					dir := filepath.Dir(where)
+					links[where] = "k2"
+					for i := 2; i < 40; i++ {
+						links[filepath.Join(dir, fmt.Sprintf("k%d", i))] = fmt.Sprintf("k%d", i+1)
+					}
+					links[filepath.Join(dir, "k40")] = map[string]string{".": "b", "a": "../b"}[dir]
+				}
 				if t == "l2" {
 					t2 := targets[x.Choose(4, "l2-target")] // l2 sits next to the first link
 					links[filepath.Join(filepath.Dir(where), "l2")] = t2
@@ -494,6 +503,12 @@ func c02forestRun(x *mc.X, links map[string]string, calls []c02call, comps []str
 				if strings.HasPrefix(name, alias.pre+"/") {
 					oracleName = alias.repl + name[len(alias.pre):]
 				}
+			}
+			if oracleName != name && len(links) >= 40 {
+				// the alias costs the tracee two link traversals that the rewritten name does not have: with the 40-link chain
+				// the tracee's own call ends in ELOOP whatever the policy says
+				skipped++
+				continue
 			}
 			exp, ok := c02resolve(b, oracleName, a.follow)
 			if !ok {
